@@ -210,7 +210,7 @@ func vRunCase9(t *testing.T, c vCase) (msg string) {
 		// observe, mutate with mutator c.N, observe again: the second observation must describe the new value
 		vals := []*big.Int{big.NewInt(5), new(big.Int).Sub(vN, big.NewInt(2)), new(big.Int).Lsh(big.NewInt(1), 200)}
 		tt := t
-		vHostilePrelude(tt)
+		vPreludeSafe(tt)
 		for _, v0 := range vals {
 			s, t, u := vScalarOf(t, v0), vScalarOf(t, new(big.Int).Sub(vN, big.NewInt(7))), vScalarOf(t, big.NewInt(12345))
 			_ = s.Bits()
@@ -267,12 +267,12 @@ func vRunCase9(t *testing.T, c vCase) (msg string) {
 			if got, ok := vPointOf(g.Multiply(s)); !ok || !vSame(got, vMulPt(want, vG())) {
 				return "after mutator " + itoa(c.N) + " Multiply uses a stale scalar value"
 			}
-			if m := vSanity(tt); m != "" {
+			if m := vSanity(tt, "scalar"); m != "" {
 				return "after scalar mutator " + itoa(c.N) + ": " + m
 			}
 		}
 	case "hidden-element":
-		vHostilePrelude(t)
+		vPreludeSafe(t)
 		g := vG()
 		e, q := vElementOf(vMulPt(big.NewInt(3), g), big.NewInt(5)), vElementOf(vMulPt(big.NewInt(9), g), big.NewInt(7))
 		vScribble(e.Encode())
@@ -306,7 +306,7 @@ func vRunCase9(t *testing.T, c vCase) (msg string) {
 		if !bytes.Equal(e.Encode(), f.Encode()) || !bytes.Equal(e.EncodeUncompressed(), f.EncodeUncompressed()) || e.IsIdentity() != f.IsIdentity() || e.Equal(q) != f.Equal(q) {
 			return "after mutator " + itoa(c.N) + " an observer disagrees with a fresh element holding the same coordinates"
 		}
-		if m := vSanity(t); m != "" {
+		if m := vSanity(t, "element"); m != "" {
 			return "after element mutator " + itoa(c.N) + ": " + m
 		}
 	default:
